@@ -95,7 +95,7 @@ theorem decode_encode_empty : decode (encode []) = .ok [] :=
 /-! ### 3. the Spec predicate the driver runs on the implementation's output -/
 
 theorem spec_roundTrip (t : RawTriangle) (h : WF t) :
-    ∃ r, decode (encode t) = .ok r ∧ Spec.roundTrip t r = true :=
+    ∃ r, decode (encode t) = .ok r ∧ Spec.C05.roundTrip t r = true :=
   ⟨t, decode_encode t h, roundTrip_self t (wf_parts h).1⟩
 
 /-! ### 4. compression and the extension / flag decision table -/
